@@ -10,3 +10,11 @@ add("C07", "real Grid._setup tables loaded as finite functions; bijection / inve
     "Bounded model checking over an enumerated configuration space: per shape, z3 decides each statement for all index values at once against closed-form Fortran numbering; generate_grid with symbolic dimensions. The solver's role is weak here (finite tables), stated in DESIGN.md.",
     "Shapes are enumerated, not symbolic; trusts z3 integer arithmetic with div/mod by constants and the closed-form oracle in checks/oracles.py.",
     "DESIGN.md §5 C07")
+add("C01", "symbolic execution of Image/CoordinateSystem/typed points (symx): dimensions, origin, an unbounded integer voxel index and the in-voxel offset are z3 variables; QF_LIRA/NRA unsat queries against the orientation oracle",
+    "Bounded symbolic model checking: for each enumerated (space_dim, shape, origin kind, payload kind) the real conversion code is executed once on symbolic dimensions, origin, voxel index (unbounded, so the whole halo is covered) and offset; origin/opposite-corner/step/round-trip/batch claims hold for all values (unsat).",
+    "Exact reals, not doubles (floor() under IEEE rounding is outside this check); shapes enumerated up to the stated extents; engine shims validated against the plain import per run.",
+    "DESIGN.md §5 C01")
+add("C02", "symbolic execution of Image.subregion/time_slice/time_interval/append/stack (symx): voxel values, geometry, times, ROI bounds and corner points symbolic; ROI bounds concretised by solver-guided case split; per-path unsat queries",
+    "Bounded symbolic model checking over programs of extraction steps: data-block identity is term-wise over distinct symbolic voxel values, placement is checked for a symbolic probe voxel, every non-empty range / open end / clipped corner is reached as a solver-chosen path.",
+    "Program lengths, shapes and series lengths bounded as stated in the evidence; dates are concrete; exact reals.",
+    "DESIGN.md §5 C02")
